@@ -12,6 +12,7 @@ import itertools
 import json
 import os
 import random
+import re
 
 import vlib
 
@@ -291,7 +292,7 @@ def run(ctx):
         s = by_id.get(scn, {})
         observed.setdefault(scn, set()).add(inv)
         sig = {"inv": inv, "kind": s.get("kind"), "impl": IMPL.get(s.get("kind")), "beh": s.get("beh"), "r": det[0], "inst": det[1],
-               "nth": min(det[2], 2), "site": det[3]}
+               "nth": min(det[2], 2), "site": re.sub(r"(\.func[0-9]+)+$", "", det[3])}   # closures count as their method
         key = (scn, json.dumps(sig, sort_keys=True))
         if key in seen:
             continue
